@@ -125,6 +125,52 @@ def sites():
     return out
 
 
+def busy_immediate():
+    """Statements that need the exclusive lock and for which SQLite reports SQLITE_BUSY at once,
+    without consulting the busy timeout (a change of journal mode): each must be retried by the code."""
+    s = read("src/state.rs")
+    m = re.search(r"\nfn connect\b[^\n]*\{", s)
+    if not m:
+        raise Broken("src/state.rs: cannot find fn connect")
+    depth, j = 0, m.end() - 1
+    i = j
+    while True:
+        if s[j] == "{":
+            depth += 1
+        elif s[j] == "}":
+            depth -= 1
+            if depth == 0:
+                break
+        j += 1
+    body = s[i:j]
+    if "pragma journal_mode" not in body:
+        raise Broken("src/state.rs: connect() does not set the journal mode any more")
+    out = []
+    # retried = the pragma is executed inside a loop that goes round again on DatabaseBusy
+    lp = re.search(r"loop\s*\{", body)
+    retried = False
+    if lp:
+        d, k = 0, lp.end() - 1
+        k0 = k
+        while k < len(body):
+            if body[k] == "{":
+                d += 1
+            elif body[k] == "}":
+                d -= 1
+                if d == 0:
+                    break
+            k += 1
+        inner = body[k0:k]
+        retried = ("query_row(" in inner or "execute(" in inner) and "DatabaseBusy" in inner and "sleep" in inner \
+            and "pragma journal_mode" not in body[k:]   # and nowhere after the loop without one
+        # the statement run in the loop is the journal-mode pragma (literal or the variable bound to it)
+        if retried and "pragma journal_mode" not in inner:
+            v = re.search(r"let\s+(\w+)\s*=\s*if[^;]*pragma journal_mode[^;]*;", body[:k0], re.S)
+            retried = bool(v and re.search(r"\b%s\b" % v.group(1), inner))
+    out.append(("state.rs:connect:pragma journal_mode", retried))
+    return out
+
+
 def coq_string(s):
     return '"' + s.replace('"', '""') + '"'
 
@@ -151,6 +197,9 @@ def generate():
             raise Broken("unknown transaction mode %s at %s" % (mode, name))
         items.append("(%s, {| pmode := %s; pops := %s |})" % (coq_string(name), "Immediate" if mode != "Deferred" else "Deferred", pat))
     L.append("Definition sites : list (string * prog) :=\n  [" + ";\n   ".join(items) + "].")
+    L.append("")
+    L.append("(* statements for which SQLite answers SQLITE_BUSY at once (no busy timeout): site, retried by the code *)")
+    L.append("Definition busy_immediate : list (string * bool) :=\n  [" + ";\n   ".join("(%s, %s)" % (coq_string(n), "true" if r else "false") for n, r in busy_immediate()) + "].")
     return "\n".join(L) + "\n"
 
 
